@@ -226,6 +226,18 @@ def r10_5(ctx):
             ctx.bad(construct, f"separators {seps}: records are cut or re-joined on something other than the newline", f.loc())
 
 
+def r10_6(ctx):
+    """R10.6 the minimal file on disk is the minimal file just computed, and it reloads to the values it names: (a) the
+    writer skips the write only when the existing file is identical as a whole (C13 R13.1b: a prefix comparison keeps a
+    stale, longer file whose extra lines bring back options that are at their defaults now); (b) string values are always
+    written through the full escape chain the loader undoes (C02 R02.2 / R02.9a)."""
+    from . import c13
+    from .common import delegate
+    delegate(ctx, c13.r13_1b, lambda c: True)
+    delegate(ctx, c02.r02_2, lambda c: "config_string" in c or "_escape" in c or "escape" in c.lower())
+    delegate(ctx, c02.r02_9, lambda c: c.startswith("_escape/"))
+
+
 def rules():
-    return [("R10.1", r10_1, 4), ("R10.1b", r10_1b, 3), ("R10.2", r10_2, 4), ("R10.2b", r10_2b, 2), ("R10.3", r10_3, 2),
+    return [("R10.6", r10_6, 3), ("R10.1", r10_1, 4), ("R10.1b", r10_1b, 3), ("R10.2", r10_2, 4), ("R10.2b", r10_2b, 2), ("R10.3", r10_3, 2),
             ("R10.4", r10_4, 1), ("R10.5", r10_5, 5)]
